@@ -60,6 +60,10 @@ func vfGenFrames(rt *rapid.T, label string) []vfFrameSpec {
 	var out []vfFrameSpec
 	for i := 0; i < k; i++ {
 		var f vfFrameSpec
+		if i > 0 && rapid.IntRange(0, 3).Draw(rt, label+"SameAsPrev") == 0 {
+			out = append(out, out[i-1]) // runs of equally long frames (bulk transfers look like that)
+			continue
+		}
 		switch rapid.IntRange(0, 9).Draw(rt, label+"Kind") {
 		case 0: // padding only
 			f = vfFrameSpec{0, 0, rapid.IntRange(0, refobfs4.MaxPacketPayload).Draw(rt, label+"Pad")}
